@@ -185,13 +185,20 @@ func (w writerTo) WriteTo(wr io.Writer) (int64, error) {
 	return total, nil
 }
 
-// recWriter is a CSVWriter that, like csv.Writer, consumes the record during Write.
+// recWriter is a CSVWriter. With retain it keeps the record slices it is handed (a collecting writer, which is
+// sound whenever the caller did not ask the parser to reuse its record); otherwise, like csv.Writer, it consumes
+// the record during Write.
 type recWriter struct {
 	recs    [][]string
 	flushes int
+	retain  bool
 }
 
 func (w *recWriter) Write(r []string) error {
+	if w.retain {
+		w.recs = append(w.recs, r)
+		return nil
+	}
 	w.recs = append(w.recs, append([]string(nil), r...))
 	return nil
 }
@@ -496,7 +503,7 @@ func checkConsume(c Case, kind int) *kit.Violation {
 		snk     = &sink{}
 		rf      = &readerFrom{}
 		bu      = &binUnmarshaler{}
-		rw      = &recWriter{}
+		rw      = &recWriter{retain: !c.Opts.Reuse} // records may only share memory when the caller asked for ReuseRecord
 		tblP    [][]string
 		tblN    table
 		bytesP  []byte
